@@ -178,11 +178,13 @@ def _reference(bats: list[dict[str, Any]]) -> tuple[Fr | None, Fr | None, int, i
     return soc_ref, (cap if n_cap else None), n_soc, n_cap
 
 
-def _calc(bats: list[dict[str, Any]]) -> tuple[float | None, float | None]:
+def _calc(bats: list[dict[str, Any]], calcs: tuple[Any, Any] | None = None) -> tuple[float | None, float | None]:
+    """Evaluate both calculators; `calcs` lets several evaluations share one pair of instances."""
     data, working = _mk(bats)
     ids = set(range(len(bats)))
-    soc = SoCCalculator(ids).calculate(data, set(working)).value
-    cap = CapacityCalculator(ids).calculate(data, set(working)).value
+    soc_calc, cap_calc = calcs or (SoCCalculator(ids), CapacityCalculator(ids))
+    soc = soc_calc.calculate(data, set(working)).value
+    cap = cap_calc.calculate(data, set(working)).value
     return (None if soc is None else soc.as_percent()), (None if cap is None else cap.as_watt_hours())
 
 
@@ -310,8 +312,10 @@ def run_case(case: Any, pid: str) -> Verdict:
         _run_pipeline(case, v)
         return v
     bats = case["bats"]
+    # one pair of calculator instances serves every evaluation of the case (base, bumped, scaled, base again)
+    calcs = (SoCCalculator(set(range(len(bats)))), CapacityCalculator(set(range(len(bats)))))
     try:
-        soc, cap = _calc(bats)
+        soc, cap = _calc(bats, calcs)
     except Exception as exc:  # pylint: disable=broad-except
         v.fail(f"calculator raised {type(exc).__name__}: {exc}")
         return v
@@ -337,7 +341,7 @@ def run_case(case: Any, pid: str) -> Verdict:
     if bats[idx]["soc"] is not None and delta > 0:
         bumped = [dict(b) for b in bats]
         bumped[idx]["soc"] = bats[idx]["soc"] + delta
-        soc2, cap2 = _calc(bumped)
+        soc2, cap2 = _calc(bumped, calcs)
         if (soc2 is None) != (soc is None):
             v.fail("raising a SoC changed None-ness of the pool SoC")
         elif soc is not None and soc2 is not None and soc2 < soc - TOL:
@@ -352,7 +356,7 @@ def run_case(case: Any, pid: str) -> Verdict:
     for b in scaled:
         if b["cap"] is not None:
             b["cap"] = b["cap"] * k
-    soc3, cap3 = _calc(scaled)
+    soc3, cap3 = _calc(scaled, calcs)
     if (soc3 is None) != (soc is None) or (cap3 is None) != (cap is None):
         v.fail("scaling capacities changed None-ness")
     else:
@@ -360,6 +364,11 @@ def run_case(case: Any, pid: str) -> Verdict:
             v.fail(f"pool SoC changed from {soc} to {soc3} when all capacities were scaled by {k}")
         if cap is not None and cap3 is not None and abs(cap3 - k * cap) > 1e-9 * max(1.0, abs(k * cap)):
             v.fail(f"capacity {cap} scaled by {k} gave {cap3}")
+
+    # the same instances asked again for the original data must answer the same
+    soc4, cap4 = _calc(bats, calcs)
+    if (soc4, cap4) != (soc, cap) and not (soc4 != soc4 and soc != soc):
+        v.fail(f"the same calculators return ({soc4}, {cap4}) for data they answered with ({soc}, {cap}) before")
 
     # classification
     qual = [b for b in bats if b["working"] and b["in_data"] and None not in (b["cap"], b["lo"], b["hi"], b["soc"])]
